@@ -119,6 +119,14 @@ def h_replace(ctx, cfg):
     r2 = sig.replace(return_annotation=5, upgraded_return_annotation=S.UpgradedAnnotation.preevaluated(5))
     ctx.require('replace-overrides-return', r2.return_annotation == 5 and
                 r2.upgraded_return_annotation.source_value() == 5 and r2.sources == sig.sources, info)
+    smark = {'+depths': {}}
+    r4 = sig.replace(sources=smark)
+    ctx.require('replace-sources-alone', r4.sources is smark and
+                r4.upgraded_return_annotation is sig.upgraded_return_annotation and str(r4) == str(sig), info)
+    r5 = sig.replace(upgraded_return_annotation=S.UpgradedAnnotation.preevaluated(8))
+    ctx.require('replace-upgraded-return-alone', r5.sources == sig.sources and
+                r5.upgraded_return_annotation.source_value() == 8 and
+                list(r5.parameters.values()) == list(sig.parameters.values()), info)
     ps = list(sig.parameters.values())
     if ps:
         r3 = sig.replace(parameters=ps[1:])
@@ -135,6 +143,25 @@ def h_replace(ctx, cfg):
         q2 = p.replace(annotation=9, upgraded_annotation=S.UpgradedAnnotation.preevaluated(9))
         ctx.require('parameter-replace-overrides', q2.annotation == 9 and q2.upgraded_annotation.source_value() == 9
                     and q2.name == p.name, lambda: dict(info(), name=p.name))
+        marker = [fn]
+        q3 = p.replace(sources=marker)
+        ctx.require('parameter-replace-sources-alone', q3.sources is marker and q3.source_depths == p.source_depths and
+                    q3.upgraded_annotation is p.upgraded_annotation and q3.name == p.name and q3.kind == p.kind,
+                    lambda: dict(info(), name=p.name, depths=repr(q3.source_depths)))
+        dmark = {fn: 7}
+        q4 = p.replace(source_depths=dmark)
+        ctx.require('parameter-replace-source_depths-alone', q4.source_depths is dmark and q4.sources == p.sources and
+                    q4.upgraded_annotation is p.upgraded_annotation,
+                    lambda: dict(info(), name=p.name, depths=repr(q4.source_depths)))
+        ua = S.UpgradedAnnotation.preevaluated(31)
+        q5 = p.replace(upgraded_annotation=ua)
+        ctx.require('parameter-replace-upgraded_annotation-alone', q5.upgraded_annotation is ua and q5.sources == p.sources
+                    and q5.source_depths == p.source_depths and q5.annotation == p.annotation,
+                    lambda: dict(info(), name=p.name))
+        q6 = p.replace(default=5) if p.kind not in (p.VAR_POSITIONAL, p.VAR_KEYWORD) else p.replace()
+        ctx.require('parameter-replace-default-keeps-provenance', q6.sources == p.sources and
+                    q6.source_depths == p.source_depths and q6.upgraded_annotation is p.upgraded_annotation,
+                    lambda: dict(info(), name=p.name))
         e = p.evaluated()
         ctx.require('parameter-evaluated', type(e) is type(p) and e.annotation == p.upgraded_annotation.source_value(),
                     lambda: dict(info(), name=p.name))
